@@ -639,6 +639,39 @@ def f(self, assignment):
     return True
 
 
+def reset_discipline(sym):
+    """An.evaluate / The.evaluate: the work sits in a `try` whose `finally` clause calls self._reset_cache_() unconditionally (so every
+    evaluation - complete, abandoned or aborted - leaves the de-duplication state empty: the D-model starts every evaluation from the
+    empty state); SymbolicExpression._reset_cache_ resets the node and recurses into every child; _reset_only_my_cache_ empties
+    the per-parent seen sets.  Returns True iff all of that is recognised, False if the reset is conditional / missing."""
+    D = lambda src: ast.dump(ast.parse(src).body[0])
+    ok = True
+    for cname in ('An', 'The'):
+        fn = method(find(sym, ast.ClassDef, cname), 'evaluate')
+        tries = [n for n in ast.walk(fn) if isinstance(n, ast.Try) and n.finalbody]
+        outer = [t for t in tries if any(ast.dump(st) == D("self._reset_cache_()") for st in t.finalbody)]
+        # every advance / evaluation of the result generator must be inside such a try
+        if not outer:
+            ok = False
+            continue
+        t = outer[0]
+        work = [n for st in t.body for n in ast.walk(st)]
+        outside = [n for st in fn.body if st is not t for n in ast.walk(st)]
+        def advances(nodes):
+            return any((isinstance(n, ast.Call) and isinstance(n.func, ast.Name) and n.func.id == 'next') or isinstance(n, (ast.Yield, ast.YieldFrom, ast.For))
+                       or (isinstance(n, ast.Call) and isinstance(n.func, ast.Attribute) and n.func.attr == '_evaluate_') for n in nodes)
+        need(advances(work), f'{cname}.evaluate: the try block that resets in its finally clause does not contain the evaluation')
+        if advances([n for n in outside if not isinstance(n, ast.FunctionDef)]):
+            ok = False
+    base = find(sym, ast.ClassDef, 'SymbolicExpression')
+    rc = [ast.dump(x) for x in body_wo_doc(method(base, '_reset_cache_'))]
+    need(rc == [D("self._reset_only_my_cache_()"), D("for child in self._children_:\n    child._reset_cache_()")],
+         'SymbolicExpression._reset_cache_: not `reset this node, then every child`')
+    ro = [ast.dump(x) for x in body_wo_doc(method(base, '_reset_only_my_cache_'))]
+    need(D("self._seen_parent_values_by_parent_ = {}") in ro, 'SymbolicExpression._reset_only_my_cache_: the per-parent seen sets are not emptied')
+    return ok
+
+
 def rule_builders(rule):
     """rule.refinement / rule.alternative_or_next: how the new operator is wrapped around the current node and linked into the
     operator above it.  Recognised shapes only; anything else is refused."""
@@ -763,6 +796,7 @@ def emit(d):
     lz = lazy_iteration(parse(os.path.join(d, 'hashed_data.py')))
     rq = required_variables(sym)
     ds = dedup_site(sym, parse(os.path.join(d, 'cache_data.py')))
+    rd = reset_discipline(sym)
     o = []
     o.append("(* Generated.v — REGENERATED ON EVERY RUN by translator/eql2coq.py from /repo's current source. Do not edit. *)")
     o.append("From EQL Require Import Base Values.\n")
@@ -859,6 +893,8 @@ def emit(d):
     o.append("")
     o.append("(* SymbolicExpression._is_duplicate_output_, SeenSet.add, SeenSet.check have the statements Dedup.dup_check transcribes (pinned) *)")
     o.append(f"Definition dedup_site_as_modelled : bool := {'true' if ds else 'false'}.")
+    o.append("(* An.evaluate / The.evaluate reset the de-duplication state in a finally clause around the whole evaluation (every exit) *)")
+    o.append(f"Definition evaluation_resets_dedup_state : bool := {'true' if rd else 'false'}.")
     return "\n".join(o) + "\n"
 
 
